@@ -17,6 +17,7 @@ def run(prog, rep, tier):
     rep.not_decided = "what the words compute (string and sequence algebra, embedded NUL, needles longer than haystacks, radix conversion)."
     apply(rep, "P1", "results are numbered from a zero-initialised counter", r_core.p1(prog), 18)
     apply(rep, "P1c", "computed results are fresh values; only shuffling words re-push operands", r_core.p1c(prog), 15)
+    apply(rep, "P1d", "overload implementations construct their result: no `operate` returns one of its operands", r_core.p1d(prog), 20)
     apply(rep, "P2", "stack mutators maintain the type profile", r_core.p2(prog), 5)
     apply(rep, "P2b", "profile == types of the top W values after every push/pop/drop (abstract evaluation)", r_core.p2b(prog, tier), 2)
     apply(rep, "P4", "overload selection matches exactly the top n value types (abstract evaluation of selector)", r_core.p4(prog, tier), 1)
